@@ -21,8 +21,9 @@ class Undefined(Exception):
 
 
 class ExactL2:
-    def __init__(self, g: GSpec, params: dict, card: dict | None = None, lat_card: int = 2, differs: dict | None = None):
+    def __init__(self, g: GSpec, params: dict, card: dict | None = None, lat_card: int = 2, differs: dict | None = None, policy: dict | None = None):
         self.g = g
+        self.policy = {k: set(v) for k, v in (policy or {}).items()}
         self.params = params
         self.card = {n: 2 for n in g.nodes}
         if card:
@@ -36,6 +37,8 @@ class ExactL2:
         return vals[j] if j < k - 1 else 1 - sum(vals)
 
     def _theta(self, pop, v, val, pa_vals, u_vals):
+        if v in self.policy.get(pop, ()):
+            return self._row("sig|%s|%s" % (pop, v), self.card[v], val)
         owner = pop if (pop != TARGET and v in self.differs.get(pop, ())) else TARGET
         key = "th|%s|%s|%s|%s" % (owner, v, "".join(map(str, pa_vals)), "".join(map(str, u_vals)))
         return self._row(key, self.card[v], val)
@@ -172,9 +175,10 @@ class ExactL3:
     *evaluated* structural equations satisfy all atoms.
     """
 
-    def __init__(self, g: GSpec, params: dict, differs: dict | None = None):
+    def __init__(self, g: GSpec, params: dict, differs: dict | None = None, policy: dict | None = None):
         self.g = g
         self.params = params
+        self.policy = {k: set(v) for k, v in (policy or {}).items()}
         self.card = {n: 2 for n in g.nodes}
         self.differs = {k: set(v) for k, v in (differs or {}).items()}
         self._tab = {}
@@ -188,6 +192,14 @@ class ExactL3:
         return Fr(1, 2) ** len(S)  # default: independent fair responses
 
     def _rt_prob(self, pop, v, r: tuple, u_vals):
+        if v in self.policy.get(pop, ()):
+            # a policy variable ignores its parents: constant response functions only
+            p0 = self.params.get("sig|%s|%s|0" % (pop, v), Fr(1, 2))
+            if all(b == 0 for b in r):
+                return p0
+            if all(b == 1 for b in r):
+                return 1 - p0
+            return Fr(0)
         owner = pop if (pop != TARGET and v in self.differs.get(pop, ())) else TARGET
         ones = [i for i, b in enumerate(r) if b]
         zeros = [i for i, b in enumerate(r) if not b]
